@@ -262,7 +262,12 @@ def checkAcc (d : DS) (s : St) (o : Obs) (t : Toks) (mi : Option (Bytes × Bool)
   let cl := match r.clientInfoStrings with
     | none => "none"
     | some (a, b, x) => s!"{hex a};{hex b};{optHex x}"
-  let s := c s "client" cl
+  -- strings that are not well-formed UTF-8 are not "the canonical encoding of such a value": reporting
+  -- nothing for them is as conformant as reporting the lossy conversion
+  let illFormed := match r.clientInfo with
+    | some (a, b, x) => !(utf8Valid a && utf8Valid b && (x.map utf8Valid).getD true)
+    | none => false
+  let s := if illFormed && tget t "client" == "none" then s.chk else c s "client" cl
   let s := match S.enrToPublic r.content with
     | .ok pk =>
       let s := c s "pk" (hex (S.encodePub pk))
@@ -341,28 +346,31 @@ def checkAcc (d : DS) (s : St) (o : Obs) (t : Toks) (mi : Option (Bytes × Bool)
         | .error _ => "0"
     let m := s!"k256:{one "k256"},libsecp:{one "libsecp"},ed:{one "ed"},comb:{one "comb"}"
     let impl := tget t "xdec"
-    let s := if (impl.splitOn "panic").length > 1 then s.prop "C03" "no_panic_cross_decode" impl else s.cmp "acc.xdec" m impl
+    -- 65-byte SEC1 public keys are outside the property's quantifier: whether another key type
+    -- takes such a record is left to the implementation
+    let sec1Long := match pubEntry r.content kSecp with
+      | .ok b => b.length == 65
+      | .error _ => false
+    let s := if (impl.splitOn "panic").length > 1 then s.prop "C03" "no_panic_cross_decode" impl
+      else if sec1Long then s.chk else s.cmp "acc.xdec" m impl
     -- scheme-level expectations, independent of the model
     let isSecp := tget t "pkkey" == hex kSecp
     let want := if isSecp then "k256:1,libsecp:1,ed:0,comb:1"
       else if (Map.lookup r.content kSecp).isNone then "k256:0,libsecp:0,ed:1,comb:1" else impl
-    -- 65-byte SEC1 public keys are outside the property's quantifier
-    let sec1Long := match pubEntry r.content kSecp with
-      | .ok b => b.length == 65
-      | .error _ => false
     if sec1Long || impl == want then s.chk else s.prop "C11" "backends_interchangeable_schemes_isolated" s!"xdec={impl} want={want}"
   c s "conv" "1"
 
 /-! ### builder calls / ops -/
 
-def applyCalls (d : DS) (keys : Array Bytes) (calls : String) : Builder :=
+def applyCalls (d : DS) (keys : Array Bytes) (calls : String) (leftovers : Bool := true) : Builder :=
   if calls == "-" then {} else
   (calls.splitOn ";").foldl (fun b c =>
     match c.splitOn ":" with
     | ["build", i, _] =>
       -- an earlier `build` on the same builder (its result is dropped): id and key stay behind
+      -- (`leftovers = false`: a builder whose `build` does not write into its own content)
       (match keys[i.toNat?.getD 0]? with
-       | some pk => Builder.afterBuild d.S b (d.ofB pk)
+       | some pk => if leftovers then Builder.afterBuild d.S b (d.ofB pk) else b
        | none => b)
     | ["seq", n] => b.setSeq (n.toNat?.getD 0)
     | ["raw", k, v] => b.addRaw (unhex k) (unhex v)
@@ -447,9 +455,9 @@ def resClass (res : String) : String :=
   if res == "ok" then "ok" else if res == "panic" then "panic" else "err"
 
 def resKind (res : String) : String :=
+  -- "err:<Kind>" or "err:<Kind>:<detail>"; the detail (an error message) may itself contain colons
   match res.splitOn ":" with
-  | [_, k] => k
-  | [_, k, _] => k
+  | _ :: k :: _ => k
   | _ => res
 
 /-! ### line handlers -/
@@ -495,7 +503,10 @@ def handleDec (d : DS) (s : St) (t : Toks) (o : Toks) (rec : Option Obs) (isInit
         let (s, v) := s.verifyCached S d.toB pk ob.toRec.rlpContent ob.sig
         let s := if v then s.chk else s.prop "C01" "accepted_record_is_authentic" s!"buf={hex buf}"
         (@memo S d.deq pk ob.toRec.rlpContent ob.sig v, s)
-      | .error _ => (S, s.prop "C01" "accepted_record_has_key" s!"buf={hex buf}")
+      | .error _ =>
+        -- regions the properties leave open (65-byte SEC1 keys in any of their forms): the
+        -- implementation may know a key the model does not
+        if expect == "open" then (S, s.chk) else (S, s.prop "C01" "accepted_record_has_key" s!"buf={hex buf}")
     | none => (S, s)
   let m := decode S' buf
   let mcls := match m with
@@ -505,7 +516,11 @@ def handleDec (d : DS) (s : St) (t : Toks) (o : Toks) (rec : Option Obs) (isInit
     | .ok _ => "-"
     | .error e => rlpErrStr e
   let s := s.cov s!"dec/{d.name}/{tag}/{resClass res}/{merr}"
-  let s := s.cmp "dec.res" mcls (resClass res)
+  -- (inputs in a region the properties leave open are decided by the implementation)
+  let longKey := match m with
+    | .ok (r, _) => (match pubEntry r.content kSecp with | .ok b => b.length == 65 | .error _ => false)
+    | .error _ => false
+  let s := if expect == "open" || longKey then s.chk else s.cmp "dec.res" mcls (resClass res)
   -- generator's expectation (independent of the model)
   let s := if isInit then s else
     if expect == "accept" && resClass res != "ok" then
@@ -542,7 +557,9 @@ def handlePrefix (s : St) (t : Toks) (o : Toks) (rec : Option Obs) : St :=
   let il := (tget t "itemlen").toNat?.getD (bufh.length / 2)
   let item := (bufh.take (2 * il)).toString
   let key := s!"{tget t "scheme"}/{item}"
-  let sig := tget o "res" ++ "/" ++ (match rec with
+  -- the outcome is acceptance with a record or rejection; which error a rejection reports is not
+  -- part of it (the item alone and the item with a suffix may be refused for different reasons)
+  let sig := resClass (tget o "res") ++ "/" ++ (match rec with
     | some ob => s!"{ob.seq}/{hex ob.nid}/{hex ob.sig}/{showPairs ob.pairs}"
     | none => "-")
   if 2 * il == bufh.length || bufh == "-" then
@@ -679,6 +696,40 @@ def handleMany (d : DS) (s : St) (t : Toks) (o : Toks) (recs : List Obs) (asList
     | _, _, _ => s
   go s body lens recs (lens.length + 1)
 
+/-- one builder run of the model: outcome, record, the would-be size, the admissible error kinds -/
+structure BuildModel where
+  prepOk : Bool
+  payload : Bytes
+  res : String
+  enr : Option Record
+  exact : Option Record      -- the record if the size check were exact
+  wouldBe : Option Nat
+  adm : List String
+
+def buildModel (d : DS) (b : Builder) (pk : d.S.PK) (oracle : Option Bytes) (signerFailed : Bool) : BuildModel :=
+  let S := d.S
+  let prep := Builder.prepare S b pk
+  let m := Builder.build S b pk oracle
+  let (mres, mrec) : String × Option Record := match m with
+    | .ok r => ("ok", some r)
+    | .err e => (s!"err:{enrErrStr e}", none)
+    | .panic _ => ("panic", none)
+  -- every cause on its own (C08: "when several causes apply, any of them")
+  let c2 := withPubkey S (Map.insert b.content kId (encBytes vV4)) pk
+  let valueErrs := c2.filterMap fun kv => match checkReserved kv.1 kv.2 with | .error e => some (enrErrStr e) | .ok _ => none
+  let keyErr := match checkSigningKey S c2 pk with | .error e => [enrErrStr e] | .ok _ => []
+  let sigLen := match oracle with | some sg => sg.length | none => 64
+  let est := ({ seq := b.seq, nodeId := [], content := c2, sig := List.replicate sigLen 0 } : Record).size
+  let sizeErr := if est + 8 > MAX_ENR_SIZE then ["ExceedsMaxSize"] else []
+  let fault := if signerFailed then ["SigningError"] else []
+  let exact : Option Record := match prep, oracle with
+    | .ok b', some sg => some { seq := b'.seq, nodeId := nodeIdOf S pk, content := b'.content, sig := sg }
+    | _, _ => none
+  { prepOk := (match prep with | .ok _ => true | .error _ => false),
+    payload := (match prep with | .ok b' => b'.rlpContent | .error _ => []),
+    res := mres, enr := mrec, exact := exact, wouldBe := exact.map (·.size),
+    adm := valueErrs ++ keyErr ++ sizeErr ++ fault }
+
 /-- `init kind=build` -/
 def handleBuild (d : DS) (s : St) (t : Toks) (o : Toks) (rec : Option Obs) : St :=
   let S := d.S
@@ -687,52 +738,62 @@ def handleBuild (d : DS) (s : St) (t : Toks) (o : Toks) (rec : Option Obs) : St 
   | none => s
   | some pkb =>
     let pk := d.ofB pkb
-    let b := applyCalls d s.keys (tget t "calls")
     let log := parseSignlog (tget o "signlog")
     let res := tget o "res"
     let s := if res == "panic" then s.prop "C03" "build_no_panic" "" else s
-    let prep := Builder.prepare S b pk
-    -- the payload the signer was asked to sign
-    let s := match prep, log with
-      | .ok b', (m, _) :: _ => s.cmp "build.signreq" (hex b'.rlpContent) (hex m)
-      | .ok _, [] => s.diff "build.signreq" "requested" "none"
-      | .error _, (m, _) :: _ => s.diff "build.signreq" "none" "requested"
-      | .error _, [] => s.chk
     let oracle : Option Bytes := match log with
       | (_, a) :: _ => a
       | [] => none
+    let failed := log.any (·.2.isNone)
+    let mA := buildModel d (applyCalls d s.keys (tget t "calls")) pk oracle failed
+    -- a builder used again after a `build`: the properties speak of "the builder's pairs plus id and
+    -- the signer's key"; whether an earlier build leaves its id / key behind in the builder is not
+    -- fixed, so the model without leftovers is as good as the one with
+    let mB := buildModel d (applyCalls d s.keys (tget t "calls") false) pk oracle failed
+    let agrees (m : BuildModel) : Bool :=
+      match rec, m.enr with
+      | some ob, some r => resClass res == "ok" && showPairs r.content == showPairs ob.pairs
+      | none, none => resClass res != "ok"
+      | _, _ => false
+    let m := if agrees mA then mA else if agrees mB then mB else mA
+    -- when the signer is asked, it is asked to sign the payload of the result
+    let s := match m.prepOk, log with
+      | true, (msg, _) :: _ => s.cmp "build.signreq" (hex m.payload) (hex msg)
+      | false, (_, _) :: _ => s.diff "build.signreq" "none" "requested"
+      | _, [] => s.chk
     -- SigOK: the signer's answer verifies
-    let s := match prep, oracle with
-      | .ok b', some sg =>
-        let (s, v) := s.verifyCached S d.toB pk b'.rlpContent sg
+    let s := match m.prepOk, oracle with
+      | true, some sg =>
+        let (s, v) := s.verifyCached S d.toB pk m.payload sg
         if v then s.chk else s.prop "C05" "sigok_signer_answer_verifies" ""
       | _, _ => s
-    let m := Builder.build S b pk oracle
-    let (mres, mrec) : String × Option Record := match m with
-      | .ok r => ("ok", some r)
-      | .err e => (s!"err:{enrErrStr e}", none)
-      | .panic _ => ("panic", none)
-    let mres := match prep with
-      | .ok _ => if log.isEmpty then "reaches-signer" else mres
-      | .error _ => mres
-    let s := s.cov s!"build/{d.name}/{resKind res}/{(b.content.length)}"
-    let s := s.cmp "build.res" (resKind mres) (resKind res)
+    let mres := if m.prepOk && log.isEmpty then "reaches-signer" else m.res
+    let s := s.cov s!"build/{d.name}/{resKind res}"
     -- C09: "the builder refuses every result above 300 bytes and may additionally refuse results
-    -- within 8 bytes of the limit, but nothing smaller" (a builder more exact than the model's is
-    -- not a violation; an exact disagreement is only a broken tie, `build.res`)
-    let wouldBe : Option Nat := match prep, oracle with
-      | .ok b', some sg => some (({ seq := b'.seq, nodeId := [], content := b'.content, sig := sg } : Record).size)
-      | _, _ => none
-    let s := match wouldBe with
+    -- within 8 bytes of the limit, but nothing smaller": within that slack both answers are right
+    let inSlack := match m.wouldBe with
+      | some sz => sz ≤ 300 && sz + 8 > 300
+      | none => false
+    let slackOk := inSlack && ((resClass res == "ok" && resKind mres == "ExceedsMaxSize") ||
+      (resKind res == "ExceedsMaxSize" && resClass mres == "ok"))
+    -- an error of a kind among the causes that apply is no difference (C08)
+    let refusedForCause := resClass res == "err" && resClass mres == "err" && m.adm.contains (resKind res)
+    let s := if slackOk || refusedForCause then s.chk else s.cmp "build.res" (resKind mres) (resKind res)
+    let s := if resClass res == "err" && !(m.adm.contains (resKind res)) && !slackOk && mres != "reaches-signer" then
+        s.prop "C08" "error_kind_matches_a_cause" s!"op=build impl={resKind res} admissible={m.adm}"
+      else s.chk
+    let s := match m.wouldBe with
       | some sz =>
         if resClass res == "ok" && sz > 300 then s.prop "C09" "builder_refuses_above_300" s!"size={sz}"
-        else if resKind res == "ExceedsMaxSize" && sz + 8 ≤ 300 then
+        else if resKind res == "ExceedsMaxSize" && sz + 8 ≤ 300 && !(refusedForCause && resKind mres != "ExceedsMaxSize") then
           s.prop "C09" "builder_refuses_only_near_the_limit" s!"size={sz}"
         else s.chk
       | none =>
-        if resKind res == "ExceedsMaxSize" && resKind mres != "ExceedsMaxSize" && mres != "reaches-signer" then
+        if resKind res == "ExceedsMaxSize" && !(m.adm.contains "ExceedsMaxSize") && mres != "reaches-signer" then
           s.prop "C09" "builder_refusal_has_a_size_cause" s!"model={mres} impl={res}"
         else s
+    -- the record: the model's, or (within the slack, implementation built it) the exactly checked one
+    let mrec := if slackOk && resClass res == "ok" then m.exact else m.enr
     match mrec, rec with
     | some r, some ob =>
       let s := cmpRec s "build" r ob
@@ -754,6 +815,38 @@ def bypassCauses (S : Scheme) (r : Record) (op : Op S) (pk : S.PK) : List String
   (if n.size > MAX_ENR_SIZE then ["ExceedsMaxSize"] else []) ++
     (match preSign S n pk with | .error e => [enrErrStr e] | .ok _ => [])
 
+/-- every item of a list payload is a well-formed RLP item (recursively) -/
+def itemsOk : Nat → Bytes → Bool
+  | 0, _ => false
+  | fuel + 1, b =>
+    if b.isEmpty then true else
+    match decodeHeader b with
+    | .error _ => false
+    | .ok (h, rest) =>
+      (if h.list then itemsOk fuel (rest.take h.len) else true) && itemsOk fuel (rest.drop h.len)
+
+/-- Error kinds an implementation may report in regions the properties leave open: a public-key
+    entry handed in that is not the signer's own key (only "setting the public key to the signer's
+    own key succeeds" is required), and a list value under an unknown key whose inner bytes are not
+    well-formed items (C02: "inner bytes of list values under unknown keys" are excluded). -/
+def openCauses (S : Scheme) (op : Op S) (pk : S.PK) : List String :=
+  let isKeyName (k : Bytes) : Bool := k == kSecp || k == kEd
+  let inner (raw : Bytes) : List String :=
+    -- (values that could not fit into a record anyway are not looked into: the walk is quadratic
+    --  in the nesting depth)
+    if raw.length > 600 then [] else
+    match decodeHeader raw with
+    | .ok (h, rest) => if h.list && !(itemsOk (raw.length + 1) (rest.take h.len)) then ["InvalidRlpData"] else []
+    | .error _ => []
+  let foreign (k raw : Bytes) : List String :=
+    if isKeyName k && !(k == S.enrKey pk && raw == pubValue S pk) then ["SigningError", "InvalidRlpData"] else []
+  match op with
+  | .insertRaw k raw => foreign k raw ++ inner raw
+  | .insert k v => foreign k v.enc ++ inner v.enc
+  | .removeInsert _ ins => (ins.map fun kv => foreign kv.1 (encBytes kv.2)).flatten
+  | .setPublicKey p => if S.encodePub p == S.encodePub pk && S.enrKey p == S.enrKey pk then [] else ["SigningError", "InvalidRlpData"]
+  | _ => []
+
 /-- The error kinds an update may report (C08: "when several causes apply, any of them"): every
     cause is evaluated on its own, whatever the order in which the code checks them. -/
 def admissibleErrs (d : DS) (r : Record) (op : Op d.S) (pk : d.S.PK) (oracle : Option Bytes)
@@ -770,7 +863,7 @@ def admissibleErrs (d : DS) (r : Record) (op : Op d.S) (pk : d.S.PK) (oracle : O
         if k = kId ∧ v ≠ vV4 then some "UnsupportedIdentityScheme"
         else match checkReserved k (encBytes v) with | .error e => some (enrErrStr e) | .ok _ => none
     | _ => []
-  if !valueErrs.isEmpty then valueErrs ++ bypassCauses S r op pk ++ seqMax ++ fault
+  if !valueErrs.isEmpty then valueErrs ++ bypassCauses S r op pk ++ seqMax ++ fault ++ openCauses S op pk
   else
     -- evaluate every cause on its own: with and without the pre-sign size check, at the real
     -- sequence number and just below the maximum (same encoded length)
@@ -785,7 +878,14 @@ def admissibleErrs (d : DS) (r : Record) (op : Op d.S) (pk : d.S.PK) (oracle : O
         let n : Record := { p.enr with sig := sg, nodeId := nodeIdOf S pk }
         if signerCalled && n.size > MAX_ENR_SIZE then ["ExceedsMaxSize"] else []
       | _, _ => []
-    pre ++ final ++ seqMax ++ fault
+    -- the size of the result estimated before signing, with a signature as long as the present one
+    -- (exact for the built-in key types): an implementation may refuse on that without asking the signer
+    let estimate := match prepareG S rLow op pk false with
+      | .ok p =>
+        let n : Record := { p.enr with sig := r.sig, nodeId := nodeIdOf S pk }
+        if n.size > MAX_ENR_SIZE then ["ExceedsMaxSize"] else []
+      | .error _ => []
+    pre ++ final ++ seqMax ++ fault ++ estimate ++ openCauses S op pk
 
 /-- one `step` with its `out` and `rec` lines -/
 def handleStep (d : DS) (s : St) (t : Toks) (o : Toks) (after : Obs) : St :=
@@ -803,12 +903,16 @@ def handleStep (d : DS) (s : St) (t : Toks) (o : Toks) (after : Obs) : St :=
       let r := before.toRec
       let log := parseSignlog (tget o "signlog")
       let req := signRequest S r op pk
-      let s := match req, log with
+      -- the payload of the result, whether or not a size check runs before signing
+      let reqL : Option Bytes := match prepareG S r op pk false with
+        | .ok p => some p.enr.rlpContent
+        | .error _ => none
+      -- when the signer is asked, it is asked to sign the payload of the result; WHETHER it is asked
+      -- before a call is refused is not something the properties fix
+      let s := match reqL, log with
         | some m', (m, _) :: _ => s.cmp "step.signreq" (hex m') (hex m)
-        | some _, [] => s.diff "step.signreq" "requested" "none"
         | none, (m, _) :: _ => s.diff "step.signreq" "none" "requested"
-        | none, [] => s.chk
-      let s := if log.length > 1 then s.diff "step.signcalls" "1" (toString log.length) else s
+        | _, [] => s.chk
       let oracle : Option Bytes := match log with
         | (_, a) :: _ => a
         | [] => none
@@ -817,7 +921,18 @@ def handleStep (d : DS) (s : St) (t : Toks) (o : Toks) (after : Obs) : St :=
           let (s, v) := s.verifyCached S d.toB pk m sg
           if v then s.chk else s.prop "C05" "sigok_signer_answer_verifies" ""
         | _, _ => s
-      let (mo, mr) := step S r op pk oracle
+      let (mo0, mr0) := step S r op pk oracle
+      -- the same update without the size check that precedes signing (what matters is the result)
+      let (moL, mrL) : Res Ret × Record := match prepareG S r op pk false, oracle with
+        | .ok p, some sg =>
+          let n : Record := { p.enr with sig := sg, nodeId := nodeIdOf S pk }
+          if n.size > MAX_ENR_SIZE then (.err .exceedsMaxSize, r) else (.ok p.ret, n)
+        | .ok _, none => (.err .signingError, r)
+        | .error e, _ => (.err e, r)
+      let isOk (x : Res Ret) : Bool := match x with | .ok _ => true | _ => false
+      -- the implementation succeeded where only the early size check of the model refuses
+      let useL := resClass res == "ok" && !(isOk mo0) && isOk moL
+      let (mo, mr) := if useL then (moL, mrL) else (mo0, mr0)
       let mres := match mo with
         | .ok _ => "ok"
         | .err e => s!"err:{enrErrStr e}"
@@ -831,8 +946,13 @@ def handleStep (d : DS) (s : St) (t : Toks) (o : Toks) (after : Obs) : St :=
       let adm := admissibleErrs d r op pk oracle (!log.isEmpty) (log.any (·.2.isNone))
       -- outcome: both succeed, or both fail with a kind among the causes that apply (the model's own
       -- kind is one of them: `C08_admissible_sound`); two different applicable kinds are no difference
-      let s := if resClass res == "err" && resClass mres == "err" && adm.contains (resKind res) then s.chk
+      -- (a refusal for a cause that applies is no difference either when the model itself goes
+      --  through: size estimated before signing, or a region the properties leave open; the record
+      --  the model expects is then the unchanged one)
+      let refusedForCause := resClass res == "err" && adm.contains (resKind res)
+      let s := if refusedForCause then s.chk
         else s.cmp "step.res" (resKind mres) (resKind res)
+      let (mo, mr) : Res Ret × Record := if refusedForCause && isOk mo then (.err .signingError, r) else (mo, mr)
       let s := if resClass res == "err" then
           (if adm.contains (resKind res) then s.chk
            else s.prop "C08" "error_kind_matches_a_cause" s!"op={opn} impl={resKind res} admissible={adm}")
@@ -1019,9 +1139,22 @@ def handleNid (s : St) (t : Toks) : St :=
     let s := s.cmp "nid.debug" (hex (NodeId.debug ⟨inp⟩)) out
     if unhex out == [48, 120] ++ hexLower inp then s.chk else s.prop "C16" "debug_is_full_0x_hex" s!"out={out}"
   | "display" =>
-    let s := s.cmp "nid.display" (hex (NodeId.display ⟨inp⟩)) out
-    if unhex out == [48, 120] ++ hexLower (inp.take 2) ++ [46, 46] ++ hexLower (inp.drop 30) then s.chk
-    else s.prop "C16" "display_is_first_and_last_two_bytes" s!"out={out}"
+    -- "Display [prints] the first and last two bytes": the hex digits of the first two bytes, later
+    -- those of the last two, and not the whole id; prefix and separator are not fixed
+    let o := unhex out
+    let rec afterSub (fuel : Nat) (pat l : Bytes) : Option Bytes :=
+      match fuel with
+      | 0 => none
+      | fuel + 1 => if pat.isPrefixOf l then some (l.drop pat.length) else
+          match l with
+          | [] => none
+          | _ :: tl => afterSub fuel pat tl
+    let lower := o.map fun c => if 65 ≤ c.toNat && c.toNat ≤ 70 then UInt8.ofNat (c.toNat + 32) else c
+    let good := match afterSub (lower.length + 1) (hexLower (inp.take 2)) lower with
+      | some rest => (afterSub (rest.length + 1) (hexLower (inp.drop 30)) rest).isSome && o.length < 40
+      | none => false
+    if out == "panic" then s else
+    if good then s.chk else s.prop "C16" "display_is_first_and_last_two_bytes" s!"out={out}"
   | _ => s
 
 def handleCk (s : St) (t : Toks) : St :=
@@ -1033,7 +1166,8 @@ def handleCk (s : St) (t : Toks) : St :=
   if kind == "secp" then
     -- valid exactly for 0 < d < n (32-byte inputs)
     let mpub := if inp.length == 32 then Secp.secretToPub inp else Secp.secretToPubK256 inp
-    let s := s.cmp "ck.res" (if mpub.isSome then "ok" else "err") res
+    -- (C17 speaks of 32-byte secrets; what other lengths do for secp256k1 is the back-end's business)
+    let s := if inp.length == 32 then s.cmp "ck.res" (if mpub.isSome then "ok" else "err") res else s.chk
     let s := if inp.length == 32 then
         (let d := beToNat inp
          let valid := 0 < d && d < Secp.n
@@ -1042,15 +1176,12 @@ def handleCk (s : St) (t : Toks) : St :=
     match mpub with
     | some P =>
       if res == "ok" then
-        let s := s.cmp "ck.pub" (hex (Secp.compress P)) (tget t "pub")
+        let s := if inp.length == 32 then s.cmp "ck.pub" (hex (Secp.compress P)) (tget t "pub") else s.chk
         let s := if tget t "export" == hex inp || inp.length != 32 then s.chk else s.prop "C17" "export_returns_secret" s!"export={tget t "export"}"
         let s := if unhex (tget t "buf") == List.replicate inp.length 0 then s.chk else s.prop "C17" "buffer_zeroed" s!"buf={tget t "buf"}"
         if tget t "signed" == "1" then s.chk else s.prop "C17" "record_signed_with_imported_key_verifies" ""
       else s
-    | none =>
-      if res == "err" then
-        (if tget t "buf" == hex inp then s.chk else s.diff "ck.buf_after_error" (hex inp) (tget t "buf"))
-      else s
+    | none => s   -- (whether the buffer of a refused import is wiped as well is not fixed)
   else
     let mpub := Ed.secretToPubBytes inp
     let s := s.cmp "ck.res" (if mpub.isSome then "ok" else "err") res
@@ -1081,11 +1212,16 @@ def finishPending (s : St) (recs : List Obs) (acc : Option Toks) : St :=
       | "dec" =>
         let s := handleDec d s t o rec1 false
         let s := handlePrefix s t o rec1
+        -- a record accepted in a region the properties leave open, under a key the model cannot
+        -- read (a SEC1 form it does not know), is the implementation's business
+        let unknownKey := match rec1 with
+          | some ob => tget t "expect" == "open" && (match d.S.enrToPublic ob.pairs with | .ok _ => false | .error _ => true)
+          | none => false
         let (s, mi) := match rec1 with
-          | some ob => let x := checkRecord d s ob "dec"; (x.1, x.2.2)
+          | some ob => if unknownKey then (s, none) else let x := checkRecord d s ob "dec"; (x.1, x.2.2)
           | none => (s, none)
         let s := match rec1, acc with
-          | some ob, some a => checkAcc d s ob a mi
+          | some ob, some a => if unknownKey then s else checkAcc d s ob a mi
           | _, _ => s
         -- group by buffer for C11
         let bufh := tget t "buf"
